@@ -394,6 +394,8 @@ SPEC_FACTS = [
     ("var i = 0, out = []; do { i++; out.push(i); if (i < 3) continue; } while (false); print(out.join());", ["1"]),
     ("var out = []; outer: do { for (var j = 0; j < 2; j++) { out.push(j); if (j === 1) continue outer; } } while (false); print(out.join());", ["0,1"]),
     ("var n = 0; do { try { n++; continue; } finally { n += 10; } } while (n < 5); print(n);", ["11"]),
+    ("function t(g) { try { g(); return 'silent'; } catch (e) { return e.name; } } print(t(function () { (function f() { (function () { 'use strict'; f = 1; })(); })(); }), t(function () { (function f() { f = 1; })(); }), t(function () { (function f() { 'use strict'; f = 1; })(); }), t(function () { (function f() { (function () { 'use strict'; f++; })(); })(); }), t(function () { (function f() { (function () { 'use strict'; for (f of [1]) {} })(); })(); }));", ["TypeError silent TypeError TypeError TypeError"]),
+    ("var n = 0; var iter = { [Symbol.iterator]() { return { next() { n++; return n > 2 ? { done: true } : { done: false, value: n }; }, return() { print('ret'); return {}; } }; } }; var [x, y, z, w] = iter; print(n, x, y, z, w); n = 0; var [a] = iter; print(n, a); n = 0; var [p, ...q] = iter; print(n, p, q.join()); n = 0; var [, , , r = 9] = iter; print(n, r); n = 0; [x, y] = iter; print(n, x, y);", ["3 1 2 undefined undefined", "ret", "1 1", "3 1 2", "3 9", "ret", "2 1 2"]),
     ("var it = { [Symbol.iterator]() { return { next() { return { done: false, value: 1 }; }, return() { throw 'R'; } }; } }; try { for (var v of it) { throw 'B'; } } catch (e) { print(e); } try { for (var v of it) { break; } } catch (e) { print(e); } var it2 = { [Symbol.iterator]() { return { next() { return { done: false, value: 1 }; }, return() { return 1; } }; } }; try { for (var v of it2) { throw 'B2'; } } catch (e) { print(e); } try { for (var v of it2) { break; } } catch (e) { print(e.name); }", ["B", "R", "B2", "TypeError"]),
     ("var log = []; class A { set x(v) { log.push('setter'); } get y() { return 'ay'; } } class B extends A { x = 1; y = 2; } var b = new B(); print(Object.getOwnPropertyNames(b).join(), b.x, b.y, log.length); class R { constructor() { return Object.create({ set z(v) { log.push('z'); } }); } } class D extends R { z = 5; } var d = new D(); print(Object.getOwnPropertyNames(d).join(), d.z, log.length);", ["x,y 1 2 0", "z 5 0"]),
     ("var i, c = true; print(eval('i = 0; while (i < 1) { i = i + 1; { break; 8; } 9; }'), eval('1; l: { break l; }'), eval('l: { 1; if (c) { break l; } 2; }'), eval('l: { 1; { break l; } 2; }'), eval('i = 0; for (;;) { i++; { if (i > 2) break; } i; }'), eval('switch (1) { case 1: 5; { break; } case 2: 6; }'), eval('i = 0; while (i < 2) { i++; 3; { continue; } 4; }'), eval('3; l: ;'), eval('i = 0; while (i < 3) { i++; if (i == 2) { continue; } i * 10; }'));", ["1 1 undefined 1 undefined 5 3 3 30"]),
